@@ -4,7 +4,7 @@
     mode change, command change, the -1/-0 decision) interleave step by step; [run (init ...) ls] is
     the state after the label sequence [ls], for any [ls].  [nres] is --header-lines, [ncie] is
     --no-clear-if-empty, [mp q x] says whether item x matches query/mode q (C03). *)
-From SkimV Require Import Common.Base Model.Pipeline Proof.Pipeline Proof.PipelineLive.
+From SkimV Require Import Common.Base Gen.PipelineOrder Model.PipelineOrder Model.Pipeline Proof.Pipeline Proof.PipelineLive.
 From Coq Require Import Permutation.
 
 (** the invariant holds in every reachable state, whatever the interleaving and edit history *)
@@ -81,6 +81,15 @@ Theorem c01_idle_is_quiescent : forall nres ncie mp source q0 a b c ls s,
   pc s = [] -> hbq s = 0 -> timer s = false -> prenotify s = false -> quiescent s.
 Proof. exact idle_is_quiescent. Qed.
 Print Assumptions c01_idle_is_quiescent.
+
+
+(** the code still has the skeleton the transition system stands for: in the event loop, matcher, reader and pool, the
+    shared-state operations extracted from the Rust sources on this run (Gen/PipelineOrder.v) are
+    the ones, in the order, that the model's steps were written for (Model/PipelineOrder.v) *)
+Theorem c01_code_skeleton :
+  same_rows c01_rows code_order model_order = true.
+Proof. vm_compute. reflexivity. Qed.
+Print Assumptions c01_code_skeleton.
 
 (** Non-vacuity: a concrete interleaving -- two items arrive before the first heartbeat, a third
     and the end of input while the first matcher runs, then a query change, a restart, a harvest --
